@@ -197,8 +197,11 @@ pub fn judge(sc: &Scenario, res: &WorldResult) -> Vec<Finding> {
                 oracle: "accept-despite-claim".into(),
                 key: k.into(),
                 message: format!(
-                    "{who} accepted although the request it was given ({}) does not even claim its protocol, the expected role and its key mode",
-                    req.map(|i| i.detail.as_str()).unwrap_or("nothing")
+                    "{who} accepted although the request it was given ({}: {}) does not claim its protocol, the expected role and its key mode (wrong: {k})",
+                    req.map(|i| i.detail.as_str()).unwrap_or("nothing"),
+                    req.filter(|i| i.framed)
+                        .map(|i| super::wire::describe_request(&i.bytes))
+                        .unwrap_or_default()
                 ),
             });
         }
